@@ -2,6 +2,7 @@ package bpx
 
 import (
 	"fmt"
+	"sync"
 
 	"github.com/gnolang/gno/tm2/pkg/bptree"
 	"github.com/gnolang/gno/tm2/pkg/db/memdb"
@@ -23,6 +24,11 @@ type Sys struct {
 	Cfg      Cfg
 	Imm      *bptree.ImmutableTree
 	VerShape map[int64]string // shape (with node keys) of each version as it was when saved / first loaded
+
+	// Every run is a deterministic function of its operation history, so the shape a SaveVersion produced is
+	// looked up by history instead of being dumped again on every replay of the same prefix.
+	hist       []byte
+	ShapeCache *sync.Map // history (as string) -> shape; shared by all instances of one scenario (nil: no caching)
 }
 
 func NewSys(u *Universe, cfg Cfg) *Sys {
@@ -61,6 +67,7 @@ func CloneDB(src *memdb.MemDB) *memdb.MemDB {
 
 // Apply performs one operation on the real tree. A panic inside the tree is returned as an error with Panic set.
 func (s *Sys) Apply(op Op) (res Res, panicked any) {
+	s.hist = append(s.hist, byte(op.K), byte(op.A>>8), byte(op.A))
 	panicked = vk.Catch(func() { res = s.apply(op) })
 	return
 }
@@ -76,10 +83,19 @@ func (s *Sys) apply(op Op) (r Res) {
 		r.Hash, r.Ver, r.Err = s.T.SaveVersion()
 		if r.Err == nil {
 			if _, ok := s.VerShape[r.Ver]; !ok {
+				if s.ShapeCache != nil {
+					if sh, hit := s.ShapeCache.Load(string(s.hist)); hit {
+						s.VerShape[r.Ver] = sh.(string)
+						break
+					}
+				}
 				if d, err := bptree.VerifDumpSaved(s.T); err == nil {
 					s.VerShape[r.Ver] = ShapeString(d, true)
 				} else {
 					s.VerShape[r.Ver] = "ERR:" + err.Error()
+				}
+				if s.ShapeCache != nil {
+					s.ShapeCache.Store(string(s.hist), s.VerShape[r.Ver])
 				}
 			}
 		}
